@@ -54,23 +54,24 @@ func genC15(r *simrt.Rand, tier string) (Cfg, *Program) {
 }
 
 type c15Disp struct {
-	Seq uint64
-	Q   int
-	Sub int
+	Seq  uint64
+	Q    int
+	Sub  int
+	Task int
 }
 
 func (j *judgeCtx) dispatches() []c15Disp {
 	var out []c15Disp
 	for _, e := range j.r.qevs {
 		if e.K == 2 {
-			out = append(out, c15Disp{e.Seq, e.Q, e.Sub})
+			out = append(out, c15Disp{e.Seq, e.Q, e.Sub, e.Task})
 		}
 	}
 	for _, q := range j.wd.qs {
 		if q.ad != nil {
 			for _, c := range q.ad.calls {
 				if c.Op == "deq" && c.OK {
-					out = append(out, c15Disp{c.Seq, q.idx, c.Sub})
+					out = append(out, c15Disp{c.Seq, q.idx, c.Sub, c.Task})
 				}
 			}
 		}
@@ -154,7 +155,73 @@ func judgeC15(j *judgeCtx) {
 		}
 		return
 	}
-	// dynamic, RoundRobin: equal share while two queues are both non-empty throughout
+	// dynamic: every choice must be justified by the lengths the selecting task itself
+	// observed since its previous dispatch (C15.b)
+	obsOf := func(q *qh) []lenObs {
+		if q.rq != nil {
+			return q.rq.lens
+		}
+		if q.ad != nil {
+			return q.ad.lens
+		}
+		return nil
+	}
+	taskOf := map[uint64]int{} // dispatch seq -> task: the observation closest before it on that queue
+	_ = taskOf
+	type win struct{ lo, hi int } // min and max observed length, -1 = not observed
+	lastByTask := map[int]uint64{}
+	prevQByTask := map[int]int{}
+	for _, d := range disp {
+		task := d.Task
+		from := lastByTask[task]
+		w := make([]win, nq)
+		for q := 0; q < nq; q++ {
+			w[q] = win{-1, -1}
+			for _, o := range obsOf(wd.qs[q]) {
+				if o.Task == task && o.Seq > from && o.Seq < d.Seq {
+					if w[q].lo < 0 || o.N < w[q].lo {
+						w[q].lo = o.N
+					}
+					if o.N > w[q].hi {
+						w[q].hi = o.N
+					}
+				}
+			}
+		}
+		switch strat {
+		case MaxLen:
+			for q := 0; q < nq; q++ {
+				if q != d.Q && w[q].lo >= 0 && w[d.Q].hi >= 0 && w[q].lo > w[d.Q].hi {
+					j.add("C15.b", d.Seq, "MaxLen took a job from queue %d although every length it observed for queue %d (>= %d) exceeded every length it observed for queue %d (<= %d)", d.Q, q, w[q].lo, d.Q, w[d.Q].hi)
+					return
+				}
+			}
+		case MinLen:
+			for q := 0; q < nq; q++ {
+				if q != d.Q && w[q].lo > 0 && w[d.Q].lo >= 0 && w[q].hi < w[d.Q].lo {
+					j.add("C15.b", d.Seq, "MinLen took a job from queue %d (observed >= %d) although non-empty queue %d was observed with at most %d", d.Q, w[d.Q].lo, q, w[q].hi)
+					return
+				}
+			}
+		case RoundRobin:
+			if prev, ok := prevQByTask[task]; ok {
+				for k := 1; k < nq; k++ {
+					q := (prev + k) % nq
+					if q == d.Q {
+						break
+					}
+					// a skipped queue must have been seen empty at least once
+					if w[q].lo > 0 {
+						j.add("C15.b", d.Seq, "RoundRobin went from queue %d to queue %d, skipping queue %d, which it only ever observed non-empty (>= %d) in between", prev, d.Q, q, w[q].lo)
+						return
+					}
+				}
+			}
+		}
+		lastByTask[task] = d.Seq
+		prevQByTask[task] = d.Q
+	}
+	// RoundRobin: equal share while two queues are both non-empty throughout
 	if strat != RoundRobin {
 		return
 	}
